@@ -245,11 +245,12 @@ func nonNilFact(facts []fact, ptr ssa.Value) bool {
 // panicExceptions: reviewed constructs (one named construct + reason each).
 var panicExceptions = map[string]string{
 	"index connectionInitiationDelayTimeRanges in (*hub.Hub).getConnectionInitiationDelayTime": "index is the attempt counter, clamped to len-1 by increaseConnectionAttemptCounter; not peer data (needs interval reasoning)",
-	"index mdnsEntries in (*hub.Hub).ReportMdnsEntries$1":                                    "indices are supplied by sort.Slice within [0,len)",
-	"type-assert *tls.Conn in (*hub.Hub).connectFoundService":                              "value returned by gorilla's wss dial is a *tls.Conn; not peer data",
+	"index mdnsEntries in (*hub.Hub).ReportMdnsEntries$1":                                      "indices are supplied by sort.Slice within [0,len)",
+	"type-assert *tls.Conn in (*hub.Hub).connectFoundService":                                  "value returned by gorilla's wss dial is a *tls.Conn; not peer data",
 }
 
 func checkC08(p *core.Program, r *core.Report) {
+	ensureCallSites(p)
 	const R1 = "C08.R1 panic-obligations"
 	const R2 = "C08.R2 receive-loop-blocking"
 	const R3 = "C08.R3 lock-order"
